@@ -5,6 +5,8 @@
 mod ndarray_draws;
 #[allow(dead_code)]
 mod zarr_events;
+#[allow(dead_code)]
+mod ndarray_divergence;
 
 fn run(name: &str, f: fn() -> anyhow::Result<()>) -> bool {
     match std::panic::catch_unwind(f) {
@@ -31,9 +33,13 @@ fn main() {
     }
     let ok = match args.get(1).map(|s| s.as_str()).unwrap_or("") {
         "ndarray_draws" => run("ndarray_draws", ndarray_draws::ndarray_trace_holds_the_draw_variables),
+        "ndarray_divergence" => {
+            run("ndarray_divergence", ndarray_divergence::ndarray_trace_holds_the_divergence_messages)
+                & run("ndarray_strings", ndarray_divergence::ndarray_trace_holds_string_and_time_draw_variables)
+        }
         "zarr_events" => run("zarr_events", zarr_events::zarr_reports_every_transformation_update),
         _ => {
-            eprintln!("usage: nuts-replay-store ndarray_draws | zarr_events");
+            eprintln!("usage: nuts-replay-store ndarray_draws | ndarray_divergence | zarr_events");
             std::process::exit(2);
         }
     };
